@@ -450,5 +450,112 @@ func TestStatsRegression(t *testing.T) {
 	vp.CheckCase(t, "c10.program", c, checkProgram)
 }
 
+// DrainCase: one goroutine repeatedly fills the cache with N private keys and
+// deletes them all again (the cache passes through "large" and "empty" over
+// and over), while other goroutines each own one key and check that a Get
+// after their own Set returns that value (no limits, so nothing is evicted;
+// a single writer per key, so any other result is not linearizable).  After
+// that, a storm of parallel Gets checks that Hit and Miss count them exactly.
+type DrainCase struct {
+	LRU      bool `json:"lru"`
+	N        int  `json:"n"`
+	Rounds   int  `json:"rounds"`
+	Churners int  `json:"churners"`
+	Procs    int  `json:"procs"`
+}
+
+func checkDrain(c DrainCase) error {
+	vp.CurrentJSON("c10.drain", c)
+	prev := runtime.GOMAXPROCS(0)
+	defer runtime.GOMAXPROCS(prev)
+	if c.Procs > 0 {
+		runtime.GOMAXPROCS(c.Procs)
+	}
+	ch := cache.New(cache.Config{EnableLRU: c.LRU})
+	var stop atomic.Bool
+	errs := make([]string, c.Churners)
+	var wg sync.WaitGroup
+	for g := 0; g < c.Churners; g++ {
+		wg.Add(1)
+		go func() {
+			defer wg.Done()
+			key := []byte("churn" + strconv.Itoa(g))
+			for i := 0; !stop.Load(); i++ {
+				v := makeValue(string(key), g, i)
+				ch.Set(key, v)
+				if got := ch.Get(key); string(got) != string(v) && errs[g] == "" {
+					errs[g] = fmt.Sprintf("goroutine %d is the only writer of %q: after its Set(%q) returned, Get returned %q (iteration %d; another goroutine was filling and draining %d other keys)", g, key, v, got, i, c.N)
+				}
+				if i%3 == 2 {
+					ch.Del(key)
+				}
+			}
+		}()
+	}
+	for r := 0; r < c.Rounds; r++ {
+		for i := 0; i < c.N; i++ {
+			k := keyName(1000 + i)
+			ch.Set([]byte(k), makeValue(k, 99, r))
+		}
+		for i := 0; i < c.N; i++ {
+			ch.Del([]byte(keyName(1000 + i)))
+		}
+	}
+	stop.Store(true)
+	wg.Wait()
+	for _, e := range errs {
+		if e != "" {
+			return fmt.Errorf("%s", e)
+		}
+	}
+	// Get storm: exact statistics under parallel Gets.
+	ch.Set([]byte("present"), []byte("v"))
+	before := ch.Stats()
+	const per = 3000
+	var hits atomic.Int64
+	for g := 0; g < 4; g++ {
+		wg.Add(1)
+		go func() {
+			defer wg.Done()
+			for i := 0; i < per; i++ {
+				k := "present"
+				if (i+g)%2 == 0 {
+					k = "absent"
+				}
+				if ch.Get([]byte(k)) != nil {
+					hits.Add(1)
+				}
+			}
+		}()
+	}
+	wg.Wait()
+	after := ch.Stats()
+	if dh, dm := int64(after.Hit-before.Hit), int64(after.Miss-before.Miss); dh != hits.Load() || dh+dm != 4*per {
+		return fmt.Errorf("%d parallel Gets (%d of them hits) moved the statistics by Hit+%d Miss+%d: Hit/Miss do not count Gets exactly", 4*per, hits.Load(), dh, dm)
+	}
+	vp.Class("drain")
+	if c.N > 64 {
+		vp.Class("drain:more-than-64-keys-filled-and-drained")
+	}
+	vp.NonTrivialStr("c10.drain", fmt.Sprintf("%+v", c))
+	vp.Sample("drain", c)
+	return nil
+}
+
+var drainProp = vp.Register(vp.Prop[DrainCase]{
+	Kind: "c10.drain", Base: 60,
+	Gen: func(t *rapid.T) DrainCase {
+		return DrainCase{
+			LRU:      rapid.Bool().Draw(t, "lru"),
+			N:        rapid.SampledFrom([]int{1, 8, 63, 64, 65, 100, 300}).Draw(t, "n"),
+			Rounds:   rapid.IntRange(20, 120).Draw(t, "rounds"),
+			Churners: rapid.IntRange(1, 3).Draw(t, "churners"),
+			Procs:    rapid.SampledFrom([]int{2, 4, 16}).Draw(t, "procs"),
+		}
+	},
+	Check: checkDrain,
+})
+
+func TestDrain(t *testing.T)   { vp.Run(t, drainProp) }
 func TestProgram(t *testing.T) { vp.Run(t, programProp) }
 func TestReplay(t *testing.T)  { vp.Replay(t) }
